@@ -3,7 +3,12 @@
 import json, os
 HERE = os.path.dirname(os.path.dirname(os.path.abspath(__file__)))
 
-OPEN = []
+# (property, rule, key, what fails, input)
+OPEN = [
+    ("C05", "R-TEXTKEEP", "parser.(*Parser).parseComponentStmt|text token stepped onto (#1 in this function) is not lost",
+     "whitespace-only text between a @component(...) use without slots and a following {{ }} block or directive is dropped: `<main>@component(\"~card\") \\n{{ 1 }}</main>` renders `...</div>1</main>` instead of `...</div> \\n1</main>`; parseComponentStmt steps onto the whitespace token to look for a @slot behind it and returns standing on it when there is none, and the caller steps over the last token of every statement. Keeping it needs a second token of lookahead (or carrying the text in the statement): not a small repair",
+     "NewTemplate with components/card.tw = `<div>x</div>` and page.tw = `<main>@component(\"~card\") \\n{{ 1 }}</main>`; String(\"page\") == `<main><div>x</div>1</main>` (the ` \\n` is missing)"),
+]
 
 # (property, commit, what failed)
 FIXED = [
@@ -61,6 +66,7 @@ FIXED = [
     ("C19", "b962b4c", "the ILLEGAL token of an unknown character had an inverted range (end one column before its start, or on the previous line)"),
     ("C02", "a6d2624", "`A@if(x)@else b @end B` rendered the @else body exactly when x was truthy; `@if(x)a@elseif(y)@else b@end` with y truthy rendered b: the @else/@elseif closing an empty body was parsed into that body together with the branch after it"),
     ("C03", "a6d2624", "`@each(i in [1])@else none @end` rendered ` none ` and `@each(i in [])@else none @end` rendered nothing; `@for(...)@end` with an empty body was a parse error"),
+    ("C07", "a6c3e33", "`@component(\"~card\")\\n  {{-- c --}}\\n  @slot(\"head\")H@end ... @end` rendered the component with empty slots and the slot bodies as loose text: parseComponentStmt stepped over one whitespace token only, a comment splits the whitespace into two"),
     ("C17", "d3e3b1f", "`a@dump(nope)b` rendered successfully with the error object (message and, for files, the path) inside the page: evalDumpStmt never tested the argument with isError"),
 ]
 
